@@ -131,7 +131,7 @@ def event(base: Dict[str, Any], sess: Session, ok, exc, timeout=False, extra=Non
         "shallow": bool(base.get("shallow", False)), "noattrs": bool(base.get("noattrs", False)),
         "k": int(base.get("k", 0)), "b": int(base.get("b", 0)),
         "ok": ok, "exc": exc or "", "timeout": timeout,
-        "view": proj["view"], "visit": proj["visit"],
+        "view": proj["view"], "visit": proj["visit"], "memb": proj.get("memb", []),
         "hasraw": False, "raw": [], "viewerr": viewerr,
         "disk": h5lib.disk_digests(sess.d, sess.name + "."), "cdisk": {},
         "drv": sess.kind,
